@@ -499,16 +499,20 @@ class merge_plan:
         else:
             self._dprint("processing   %s%s", (depth * 2 * " ", atom))
 
-        ret = self.check_for_cycles(stack, stack.current_frame)
-        if ret is not True:
-            stack.pop_frame(ret is None)
-            return ret
-
         failures = []
 
         debugging = self._debugging
         last_state = None
+        cycle_checked = None
         while choices:
+            if choices.current_pkg is not cycle_checked:
+                # the cycle check is per candidate: a later candidate may sit
+                # in a slot that is already being resolved further up the stack.
+                cycle_checked = choices.current_pkg
+                ret = self.check_for_cycles(stack, stack.current_frame)
+                if ret is not True:
+                    stack.pop_frame(ret is None)
+                    return ret
             if debugging:
                 new_state = choices.state
                 if last_state == new_state:
@@ -690,6 +694,10 @@ class merge_plan:
         """
         force_vdb = False
         for frame in stack.slot_cycles(cur_frame, reverse=True):
+            if not cur_frame.atom.match(frame.current_pkg):
+                # same slot, but what is being resolved there does not satisfy
+                # this atom: that frame is no cycle for it.
+                continue
             if not any(
                 f.mode == "pdepend"
                 for f in islice(stack, stack.index(frame), stack.index(cur_frame))
